@@ -314,6 +314,13 @@ def hostile_announcements(c12, rng):
     # instance names with control characters / dots / spaces only
     for nm_, inst_ in (("ctrl-char", "a\x01b"), ("nul", "a\x00b"), ("dot-in-label", "a.b"), ("space-only", " "), ("del", "a\x7fb")):
         out.append(("odd-instance-%s" % nm_, [svc("_airplay._tcp.local", [kv("deviceid", "EE:EE:EE:EE:EE:EE")], inst=inst_)]))
+    # _device-info announcements that lack the one key the scanner looks for / have no TXT at all
+    di = c12.L(c12.DEVINFO)
+    out.append(("devinfo-without-model", [{"src": hostile_ip, "msg": {"answers": [], "additional": [c12.rec_txt(["evil"] + di, [kv("osxvers", "21")]), c12.rec_a(["evilhost", "local"], hostile_ip)], "compress": False}}]))
+    out.append(("devinfo-empty-txt", [{"src": hostile_ip, "msg": {"answers": [], "additional": [c12.rec_txt(["evil"] + di, [])], "compress": False}}]))
+    out.append(("devinfo-ptr-only", [{"src": hostile_ip, "msg": {"answers": [c12.rec_ptr(c12.DEVINFO, ["evil"] + di)], "additional": [], "compress": False}}]))
+    out.append(("devinfo-with-service", [svc("_airplay._tcp.local", [kv("deviceid", "EE:EE:EE:EE:EE:EE")])[0] if False else svc("_airplay._tcp.local", [kv("deviceid", "EE:EE:EE:EE:EE:EE")]),
+                                         {"src": hostile_ip, "msg": {"answers": [], "additional": [c12.rec_txt(["evil"] + di, [kv("foo", "bar")])], "compress": False}}]))
     # odd instance names
     out.append(("raop-no-at", [svc("_raop._tcp.local", [kv("am", "AppleTV6,2")], inst="noatsign")]))
     # well-formed DNS framing around records whose RDATA has the wrong size for its type
@@ -429,7 +436,7 @@ def discovery_dynamic(ctx):
         jobs.append({"feed": [[src, data.hex()] for src, data in c12.feed_for(sc, enc, list(range(len(good))))]})
         meta.append(("base", si, None, None))
         for hi, (hname, hd) in enumerate(hostile):
-            if not ctx.thorough and (hi % nscen) != si and not hname.startswith(("garbage", "ptr-loop", "huge", "ones", "trunc", "bare", "srv-only", "dangling", "ptr-to", "sleep", "odd-name")):
+            if not ctx.thorough and (hi % nscen) != si and not hname.startswith(("garbage", "ptr-loop", "huge", "ones", "trunc", "bare", "srv-only", "dangling", "ptr-to", "sleep", "odd-name", "devinfo")):
                 continue
             for pos in sorted({0, len(good)} | ({rng.randrange(len(good) + 1)} if ctx.thorough else set())):
                 dg = good[:pos] + hd + good[pos:]
@@ -458,7 +465,7 @@ def discovery_dynamic(ctx):
         jobs.append({"mode": "u", "feed": per + [[]]})
         meta.append(("base", si, None, None))
         for hi, (hname, hd) in enumerate(hostile):
-            if not ctx.thorough and (hi % nscen) != si0 and not hname.startswith(("garbage", "ptr-loop", "huge", "ones", "trunc", "bare", "srv-only", "dangling", "ptr-to", "sleep", "odd-name")):
+            if not ctx.thorough and (hi % nscen) != si0 and not hname.startswith(("garbage", "ptr-loop", "huge", "ones", "trunc", "bare", "srv-only", "dangling", "ptr-to", "sleep", "odd-name", "devinfo")):
                 continue
             try:
                 enc2 = c12.encode_scenario({"mode": "m", "dgrams": hd})
@@ -468,7 +475,7 @@ def discovery_dynamic(ctx):
             # the host complete and processes what it said), or only once (the host then times out)
             one = [data.hex() for data, _ in enc2]
             for rep, tag in ((c12.nqueries(None), "unicast-all-queries"), (1, "unicast-once")):
-                if rep == 1 and not (ctx.thorough or hname.startswith(("garbage", "odd-name", "ptr-loop"))):
+                if rep == 1 and not (ctx.thorough or hname.startswith(("garbage", "odd-name", "ptr-loop", "devinfo"))):
                     continue
                 jobs.append({"mode": "u", "feed": per + [(one * rep)[:max(rep, len(one))]]})
                 meta.append(("hostile", si, hname, tag))
@@ -486,7 +493,7 @@ def discovery_dynamic(ctx):
         for hi, (hname, hd) in enumerate(hostile):
             if hname.startswith("garbage") or hname in ("ptr-loop", "huge-counts", "ones", "truncated-answer"):
                 continue      # raw datagrams are parsed by the zeroconf library, not by pyatv
-            if not ctx.thorough and (hi % nscen) != si0 and not hname.startswith(("non-ascii", "sleep", "odd-", "bare", "srv-only", "dangling", "ptr-to", "port0", "no-txt")):
+            if not ctx.thorough and (hi % nscen) != si0 and not hname.startswith(("non-ascii", "sleep", "odd-", "bare", "srv-only", "dangling", "ptr-to", "port0", "no-txt", "devinfo")):
                 continue
             jobs.append({"mode": "z", "records": records_of(good) + records_of(hd), "feed": []})
             meta.append(("hostile", si, hname, "zeroconf-cache"))
